@@ -236,7 +236,7 @@ class C09(Check):
         for _ in range(n):
             spec = fixed_app(g, rng)
             hist = self.gen_history(g, rng)
-            outs, urls, live = core.with_timeout(lambda: self.run_history(spec, hist, retention=True), 60)
+            outs, urls, live = zoo.watchdog(lambda: self.run_history(spec, hist, retention=True), 60)
             toks = zoo.ser_app(spec) + [str(len(hist))]
             for h, u in zip(hist, urls):
                 toks += ser_hreq(h, u)
@@ -321,8 +321,8 @@ class C09(Check):
         for spec, hist in cases:
             evals += 1
             try:
-                bad = core.with_timeout(lambda: self._oracle(spec, hist), 60)
-            except core.Hang:
+                bad = zoo.watchdog(lambda: self._oracle(spec, hist), 60)
+            except zoo.HangB:
                 bad = [('hang', 'history did not finish within 60 s')]
             for key, what in bad:
                 findings.append(Finding(f'C09:{key}', what, dict(kind='history', app=enc(spec), hist=enc(hist))))
